@@ -308,7 +308,7 @@ def explore(h, tier):
             tasks = []
             for ci, items in by_cfg.items():
                 for i in range(0, len(items), CH):
-                    tasks.append((ci, configs[ci], do_core, fresh and level <= FRESH_MAX_LEVEL, items[i : i + CH]))
+                    tasks.append((ci, configs[ci], do_core, fresh and level <= (FRESH_MAX_LEVEL if tier == "thorough" else 1), items[i : i + CH]))
             it = pool.imap_unordered(_expand_worker, tasks, chunksize=1) if pool else map(_expand_worker, tasks)
             newfrontier = []
             this_level = {}
@@ -355,7 +355,7 @@ def explore(h, tier):
             pool.join()
     cov = {
         "canonicalisation_audit": audit_result if audit else "not run in this tier",
-        "fresh_object_replay": f"every transition up to level {FRESH_MAX_LEVEL} re-executed from a fresh world" if fresh else "not in this tier (states restored from pickles, caches cleared before every transition)",
+        "fresh_object_replay": f"every transition up to level {FRESH_MAX_LEVEL if tier == 'thorough' else 1} re-executed from a fresh world" if fresh else "not in this tier (states restored from pickles, caches cleared before every transition)",
         "states": len(seen),
         "transitions": total.transitions,
         "traces_validated_against_impl": total.transitions,
